@@ -54,7 +54,13 @@ void trim(std::string &str) {
 
 
 void path_split(std::string &dirname, std::string &basename, const std::string &path) {
+    // Like Go's filepath.Split: a backslash separates directories on
+    // Windows only; elsewhere it is an ordinary file name character
+#if defined _WIN32 || defined __CYGWIN__
     size_t found = path.find_last_of("/\\");
+#else
+    size_t found = path.find_last_of(kPathSep);
+#endif
 
     if (found == std::string::npos) {
         dirname.clear();
